@@ -170,7 +170,7 @@ def c06(tier):
 SCOPE = {
     "C01": dict(obs=["n", "en", "nbr", "has", "outdeg", "indeg", "mat"], state=["n", "adj", "en"], topics=["degree", "range"]),
     "C02": dict(obs=["n", "en", "nbr", "has", "deg1", "deg2", "mat", "mat1"], state=["n", "adj", "en"], topics=["degree", "range", "nbr"]),
-    "C03": dict(obs=["n", "has", "lab", "labd", "hasl"], state=["n", "lab"], topics=["label"]),
+    "C03": dict(obs=["n", "has", "lab", "labd", "hasl"], state=["n"], topics=["label"], mask=True),
     "C04": dict(obs=["n", "en", "tot", "nbr", "has", "mult", "outdeg", "indeg", "deg1", "deg2", "mat", "mat1"],
                 state=["n", "adj", "en", "tot", "lab"], topics=["degree", "range", "mult"]),
     "C05": dict(obs=["n", "en", "tot", "nbr", "has", "lab", "labd", "wmat", "outdeg", "indeg", "deg1", "deg2", "mat", "mat1"],
@@ -191,6 +191,7 @@ def apply_scope(pid, scenarios):
             continue
         s.obs_fields, s.state_fields, s.topics = sc.get("obs"), sc.get("state"), sc.get("topics")
         s.check_valid = sc.get("check_valid", True)
+        s.mask_by_has = sc.get("mask", False)
     return scenarios
 
 
